@@ -55,6 +55,9 @@ package encryption
 //@   ensures [dek] err == nil ==> len(handler.defaultDEK) == 32
 //@   ensures [layout] err == nil ==> len(out) == 1 + 40 + 12 + len(data) + 16 && int(out[0]) == 40
 //@   ensures [sealed-under-dek] err == nil ==> ghost.sealKey == handler.defaultDEK
+// (the sealed value is the caller's own: the loop that batches messages keeps several of them until one Append, so a
+//  buffer shared between calls would let a later Seal overwrite an earlier message's stored form)
+//@   ensures [the-sealed-value-shares-no-memory-with-the-handler-or-an-earlier-result] err == nil ==> fresh(out)
 
 // Read is total: for EVERY byte string it returns plaintext or an error, it never panics.
 //@ func (*LocalEncryptionHandler).Read serves C17
